@@ -2,7 +2,7 @@
    (pcapgo/ngwrite*.go) was given; a truncated file gives a true prefix.
    Property theorems only; proofs in Proofs/NgExec.v, NgRoundtrip.v (one packet block), NgFile.v (whole
    files), NgPrefix.v and NgPrefixFile.v (truncation). *)
-From GP Require Import Base NgModel NgIoProofs NgExec NgRoundtrip NgFile NgPrefix NgPrefixFile.
+From GP Require Import Base NgModel NgIoProofs NgWp NgSafeProofs NgExec NgRoundtrip NgFile NgPrefix NgPrefixFile NgFuel NgPrefixOwn.
 Open Scope Z_scope.
 
 Definition new_class (r : Z * list pkt * Z * rst) : Z := fst (fst (fst r)).
@@ -91,14 +91,14 @@ Print Assumptions C14_ng_exec_is_session.
 
 
 (* ------------------------------------------------------------------ proved at file level *)
-(* C14_ng_roundtrip for the sub-language {NewNgWriterInterface, AddInterface, WritePacketWithOptions}
+(* C14_ng_roundtrip for the sub-language {NewNgWriterInterface, AddInterface, WritePacketWithOptions,
+   WriteDecryptionSecretsBlock}
    (any section description, any number of interfaces of any link types and snap lengths, any
    NgPacketOptions), all link types wanted, copying or zero-copy call.  [ops_ok] (Proofs/NgFile.v) is
    exactly: strings and option values shorter than 65536 bytes, if_tsoffset 0, and for each packet
    what WritePacketWithOptions enforces (interface exists, caplen = |data| <= len) plus timestamp in
    [0, 2^63) ns, caplen <= snap length of its interface (when not 0), sizes below 2^32.
-   Missing from the full statement: WriteInterfaceStats and WriteDecryptionSecretsBlock blocks in
-   the script; WantMixedLinkType = false (packets of other link types skipped). *)
+   Missing from the full statement: WriteInterfaceStats blocks in the script; WantMixedLinkType = false (packets of other link types skipped). *)
 Theorem C14_ng_roundtrip_file_partial : forall ro sec i0 ops,
   ro_mixed ro = true -> sec_ok sec -> ops_ok [] (WAddIf i0 :: ops) -> zlen ops < 4294967290 ->
   let r := write_cut_read ro sec i0 ops (length (write_file sec i0 ops)) in
@@ -119,8 +119,8 @@ Print Assumptions C14_ng_writer_accepts.
    boundary and io.ErrUnexpectedEOF inside the block.  The cut after the last block is
    C14_ng_roundtrip_file_partial.  The reader runs with any fuel at least that of the whole file (the model's
    fuel is a proof device; C15_ng_terminates shows the fuel of the cut input is never exhausted
-   either, but the equality of the two runs is not proved).  Cuts inside the section header block: C14_ng_prefix_header_partial.  Missing: ISB/DSB
-   blocks, WantMixedLinkType = false, and the identity of the run with the cut input's own fuel. *)
+   either, but the equality of the two runs is not proved).  Cuts inside the section header block: C14_ng_prefix_header_partial.  The run with the cut
+   input's own fuel: C14_ng_prefix_file_own_fuel_partial.  Missing: ISB blocks, WantMixedLinkType = false. *)
 Theorem C14_ng_prefix_file_partial : forall ro sec i0 ops pre nxt post k,
   ro_mixed ro = true -> sec_ok sec -> ops_ok [] (WAddIf i0 :: ops) -> zlen ops < 4294967290 ->
   WAddIf i0 :: ops = pre ++ nxt :: post -> (k < length (enc_op nxt))%nat ->
@@ -142,6 +142,33 @@ Theorem C14_ng_prefix_header_partial : forall ro sec i0 ops k,
   new_class r = (if (k =? 0)%nat then 1 else 2) /\ packets r = [] /\ end_class r = (if (k =? 0)%nat then 1 else 2).
 Proof. exact prefix_file_shb. Qed.
 Print Assumptions C14_ng_prefix_header_partial.
+
+(* the same two theorems for the run the extracted model performs: the cut input read with the
+   fuel computed from the cut input itself (write_cut_read), for a written file that consists of
+   bytes.  Rests on C14_ng_fuel_independence below and on C15_ng_terminates. *)
+Theorem C14_ng_prefix_file_own_fuel_partial : forall ro sec i0 ops pre nxt post k,
+  ro_mixed ro = true -> sec_ok sec -> ops_ok [] (WAddIf i0 :: ops) -> zlen ops < 4294967290 ->
+  bytes_ok (write_file sec i0 ops) ->
+  WAddIf i0 :: ops = pre ++ nxt :: post -> (k < length (enc_op nxt))%nat ->
+  let r := write_cut_read ro sec i0 ops (length (enc_shb sec) + length (enc_ops pre) + k) in
+  new_class r = 0 /\ packets r = exp_pkts [] pre /\ end_class r = (if (k =? 0)%nat then 1 else 2).
+Proof. exact prefix_file_own. Qed.
+Print Assumptions C14_ng_prefix_file_own_fuel_partial.
+
+Theorem C14_ng_prefix_header_own_fuel_partial : forall ro sec i0 ops k,
+  ro_mixed ro = true -> sec_ok sec -> ops_ok [] (WAddIf i0 :: ops) -> zlen ops < 4294967290 ->
+  bytes_ok (write_file sec i0 ops) -> (k < length (enc_shb sec))%nat ->
+  let r := write_cut_read ro sec i0 ops k in
+  new_class r = (if (k =? 0)%nat then 1 else 2) /\ packets r = [] /\ end_class r = (if (k =? 0)%nat then 1 else 2).
+Proof. exact prefix_file_shb_own. Qed.
+Print Assumptions C14_ng_prefix_header_own_fuel_partial.
+
+(* fuel is a proof device only: a session that does not end out of fuel (class 9) is the session
+   with any larger fuel, on every input and for every reader option set *)
+Theorem C14_ng_fuel_independence : forall ro F F' l, (F <= F')%nat ->
+  end_class (fst (run_d (session ro F) l)) <> 9 -> run_d (session ro F') l = run_d (session ro F) l.
+Proof. exact session_fuel_indep. Qed.
+Print Assumptions C14_ng_fuel_independence.
 
 (* the two block lemmas behind it: a block cut short ends the read with io.ErrUnexpectedEOF *)
 Theorem C14_ng_cut_packet_block : forall ro F g s ifid ts caplen len data o k,
